@@ -77,6 +77,9 @@ pub enum Op {
     PerturbedEq(usize, usize, usize, f64),
     PerturbedApproxEq(usize, usize, usize, f64, f64),
     PerturbedMaxDiff(usize, usize, usize, f64),
+    /// equality tests between a matrix and the matrix of transposed shape holding the same row-major data
+    EqReshaped(usize),
+    ApproxEqReshaped(usize, f64),
     // ---- vector ops (operands are vector registers)
     VBin(Ar, usize, usize),
     VScalar(Ar, usize, f64),
@@ -552,6 +555,13 @@ fn model_raw(op: &Op, r: &Regs, epsw: f64) -> MOut {
                 Val(self::Val::B(worst <= *err), vec![], 0.0)
             }
         }
+        Op::EqReshaped(a) | Op::ApproxEqReshaped(a, _) => {
+            if m[*a].r == m[*a].c {
+                Unspecified("square matrix: reshaping to the transposed shape changes nothing")
+            } else {
+                Val(self::Val::B(false), vec![], 0.0)
+            }
+        }
         Op::PerturbedMaxDiff(a, i, j, delta) => {
             let x = m[*a].at(*i, *j);
             val_s(((x + delta) - x).abs(), 2.0 * x.abs() + delta.abs(), 2.0)
@@ -921,6 +931,16 @@ pub fn exec<T: RealNumber, M: Matrix<T>>(op: &Op, r: &BackendRegs<T, M>) -> Resu
                     note = Some("approximate_eq is not symmetric".to_string());
                 }
                 BVal::B(r1)
+            }
+            Op::EqReshaped(a) => {
+                let (rr, cc) = m[*a].shape();
+                let b = m[*a].reshape(cc, rr);
+                BVal::B(m[*a] == b || b == m[*a])
+            }
+            Op::ApproxEqReshaped(a, err) => {
+                let (rr, cc) = m[*a].shape();
+                let b = m[*a].reshape(cc, rr);
+                BVal::B(m[*a].approximate_eq(&b, t(*err)) || b.approximate_eq(&m[*a], t(*err)))
             }
             Op::PerturbedMaxDiff(a, i, j, delta) => {
                 let mut b = m[*a].clone();
@@ -1424,7 +1444,11 @@ pub fn draw_op(rng: &mut Rng, r: &Regs, f32w: bool) -> Op {
                 4 => Op::VOnes(rng.us(1, 6)),
                 5 | 6 => Op::PerturbedEq(a, i, j, delta),
                 7 => Op::PerturbedApproxEq(a, i, j, delta, base * 2f64.powi(rng.int(-10, 3) as i32)),
-                8 => Op::PerturbedMaxDiff(a, i, j, delta),
+                8 => match rng.below(3) {
+                    0 => Op::PerturbedMaxDiff(a, i, j, delta),
+                    1 => Op::EqReshaped(a),
+                    _ => Op::ApproxEqReshaped(a, rng.logu(1e-9, 10.0)),
+                },
                 _ => {
                     let k = rng.below(r.v[u].len());
                     let xv = r.v[u][k];
